@@ -1033,6 +1033,7 @@ static std::vector<size_t> c03Lengths(size_t hdr, bool thorough)
         l.push_back(i);
     l.push_back(hdr + 40);
     l.push_back(300);
+    l.push_back(1400);   // room for sections whose length fields have two non-zero bytes (>= 0x0101)
     if (thorough)
     {
         l.push_back(hdr + 255);
@@ -1139,7 +1140,36 @@ static void c03Buffers(int cls, size_t len, Fn fn)
                     break;
             }
         }
-        else   // interface: status byte x stream count x vendor length
+        if (cls == 5 && len >= 36 + 5 * 0x0101)
+        {
+            // sections without any zero byte: every section length >= 0x0101 (both length bytes non-zero), contents from the
+            // background (0xFF / 0xA5), the last section takes exactly the rest: a string scan that ignores the section
+            // length finds no terminator inside the payload
+            const long L[3] = {0x0101, 0x0102, 0x0111};
+            for (int fill = 0; fill < 2; ++fill)
+                for (int a = 0; a < 3; ++a)
+                    for (int b2 = 0; b2 < 3; ++b2)
+                        for (int c2 = 0; c2 < 3; ++c2)
+                            for (int d2 = 0; d2 < 3; ++d2)
+                            {
+                                Bytes b(len, fill ? 0xA5 : 0xFF);
+                                long ls[5] = {L[a], L[b2], L[c2], L[d2], 0};
+                                long used = (long) hdr + 10 + ls[0] + ls[1] + ls[2] + ls[3];
+                                ls[4] = (long) len - used;
+                                if (ls[4] < 0x0101)
+                                    continue;
+                                size_t o = hdr;
+                                for (int s5 = 0; s5 < 5; ++s5)
+                                {
+                                    ref::wr(&b[o], (uint64_t) ls[s5], 2);
+                                    o += 2 + (size_t) ls[s5];
+                                }
+                                fn(b);
+                            }
+        }
+        if (cls != 6)
+            continue;
+        // interface: status byte x stream count x vendor length
             for (int st = 0; st < 2; ++st)
                 for (long sc : lenValues((long) len - (long) hdr - 4, 2))
                 {
